@@ -10,6 +10,7 @@ from hypothesis import strategies as st
 
 from vlib import gen_spectra as S
 from vlib.runner import Part
+from vlib.timeouts import TimeLimit
 
 PROPERTY = "C08"
 RULE = (
@@ -59,7 +60,7 @@ def _opts(entry):
     kk_test = st.sampled_from(["complex", "real", "imaginary", "complex-inv", "real-inv", "imaginary-inv"])
     adm = st.sampled_from([False, True])
     if entry == "kk":
-        return st.fixed_dictionaries({"test": kk_test, "num_RC": st.integers(3, 8), "admittance": adm, "add_capacitance": st.booleans(), "add_inductance": st.booleans(), "num_F_ext_evaluations": st.just(0), "log_F_ext": st.sampled_from([0.0, 0.3])})
+        return st.fixed_dictionaries({"test": st.one_of(kk_test, kk_test, st.just("cnls")), "num_RC": st.integers(3, 8), "admittance": adm, "add_capacitance": st.booleans(), "add_inductance": st.booleans(), "num_F_ext_evaluations": st.just(0), "log_F_ext": st.sampled_from([0.0, 0.3])})
     if entry == "kk-auto":
         return st.fixed_dictionaries({"test": kk_test, "admittance": st.sampled_from([None, False, True]), "num_F_ext_evaluations": st.sampled_from([0, 4])})
     if entry == "kk-evaluate":
@@ -199,6 +200,14 @@ def body(ctx, case):
         out0, c0 = run_entry(entry, opts, d0)
     except refusals as e:
         ctx.record(case, False, labels, f"refused: {type(e).__name__}")
+        return
+    except TimeLimit:
+        raise
+    except Exception as e:  # noqa: BLE001
+        # the property speaks of "every result object returned": an analysis that raises returns none. Whether it may raise
+        # this way is C18's subject (e.g. known finding F34: automatic num_RC on 4-5 points); here it is counted and labelled.
+        labels.add("raised-instead-of-returning")
+        ctx.record(case, False, sorted(labels), f"raised: {type(e).__name__}: {str(e)[:80]}")
         return
     csnap = None
     results = []
